@@ -115,6 +115,12 @@ func (ctx *Ctx) cloop(node *node, tpl *Tpl, w io.Writer) {
 		}
 	}
 
+	if c > 0 {
+		// Publish the counter once more: a nested loop may have moved the buffer since the last
+		// iteration, and the variable must show the final value afterwards.
+		ctx.SetStatic(byteconv.B2S(node.loopCnt), &ctx.bufLC[idxLC])
+	}
+
 	// This loop is one of the loops a pending break/lazybreak N has to end.
 	if ctx.brkD > 0 {
 		ctx.brkD--
